@@ -135,7 +135,7 @@ CHECKS.update({
 
 CHECKS.update({
  "C19": dict(category="proof",
-   text="PARTIAL PROOF, all over tables re-extracted from /repo on every run and decided by kernel evaluation over the whole table. (1) The serialized parser and lexer automata of the Go, JS and Java packages are equal element for element and equal to those of the six .interp files; vocabularies, rule names and modes agree across packages and with the lexer grammar (parser_atn_equal, lexer_atn_equal, vocab_equal, vocab_matches_g4); every grammar rule the listener needs has its callback (listener_callbacks_exist). (2) OpenFGAParser.g4 itself is translated to Lean on every run; its rule list is the rule table of the generated parsers (grammar_rule_names) and every rule body has exactly the Glushkov local sets - nullable, first symbols, last symbols, follow relation over token types and rule references - of its sub-automaton in the embedded ATN, which is read back by a Lean deserializer (parser_atn_deserializes, grammar_matches_atn): an un-regenerated edit of a rule body breaks this. (3) Hand edits of generated parser METHOD BODIES, which no table shows, are caught at run time: every parse tree for which the Go parser reports no error (corpus files, every generated document of C01/C03/C09, and token-class probes that put a lexeme of every class into every identifier-like slot) must be a derivation by the translated grammar (children of every rule node matched by the rule body, labels in place) - otherwise the text is the replay. NOT proved: local-set equality is not language equality; the lexer grammar's rule bodies are not compared with the lexer ATN; JS and Java are not executed (only their tables are read).",
+   text="PARTIAL PROOF, all over tables re-extracted from /repo on every run and decided by kernel evaluation over the whole table. (1) The serialized parser and lexer automata of the Go, JS and Java packages are equal element for element and equal to those of the six .interp files; vocabularies, rule names and modes agree across packages and with the lexer grammar (parser_atn_equal, lexer_atn_equal, vocab_equal, vocab_matches_g4); every grammar rule the listener needs has its callback (listener_callbacks_exist). (2) OpenFGAParser.g4 itself is translated to Lean on every run; its rule list is the rule table of the generated parsers (grammar_rule_names) and every rule body has exactly the Glushkov local sets - nullable, first symbols, last symbols, follow relation over token types and rule references - of its sub-automaton in the embedded ATN, which is read back by a Lean deserializer (parser_atn_deserializes, grammar_matches_atn): an un-regenerated edit of a rule body breaks this. (3) Hand edits of generated parser METHOD BODIES, which no table shows, are caught at run time: every parse tree for which the Go parser reports no error (corpus files, every generated document of C01/C03/C09, and token-class probes that put a lexeme of every class into every identifier-like slot) must be a derivation by the translated grammar (children of every rule node matched by the rule body, labels in place) - otherwise the text is the replay. The same comparison is made for OpenFGALexer.g4 and the lexer ATN: all 75 lexer rules (fragments included) have the local sets over characters and rule references (character sets evaluated on all ASCII code points and nine samples beyond; lexer_sets_ascii_or_cofinite), the lexer commands (pushMode/popMode/type/channel) and the token type of their sub-automaton, and each mode lists its token rules in grammar order (lexer_rule_names, lexer_grammar_matches_atn, lexer_modes_match). NOT proved: local-set equality is not language equality (e.g. non-greedy markers and repetition counts are invisible to it); ANTLR's runtime, which interprets the automata, is a parameter; JS and Java are not executed (only their tables are read).",
    design_ref="DESIGN.md §6.19",
    note="translators tools/gen_atn.py, tools/gen_grammar.py and the Lean ATN deserializer are part of the trusted base; cross-validated against the compiled Go package's own tables and against 27/27 agreeing rules on the unchanged tree",
    technique="Lean 4 theorems decided by kernel evaluation over regenerated tables (ATN equality, grammar-vs-ATN local sets) + conformance check of real parse trees against the translated grammar"),
